@@ -69,6 +69,7 @@ def scenario(draw) -> Dict[str, Any]:
             op['browser'] = draw(st.integers(0, len(browsers) - 1))
         ops.append(op)
     joins = [draw(st.sampled_from(['start', 'late', 'late'])) for _ in range(n_hosts)]
+    restart = False
     # services of one machine normally share its host name (and then its address set); the other half of the scenarios keeps
     # one host name per service so that address sets can differ and change per service
     shared = draw(st.booleans())
@@ -124,6 +125,21 @@ def scenario(draw) -> Dict[str, Any]:
         joins[hb] = 'start'
         browsers = browsers[:3] + [{'host': hb, 'types': [services[k]['type']], 'at': t1 + 2400 + draw(st.integers(1200, 8000)), 'qtype': None}]
         ops = [o for o in ops if not (o['op'] == 'cancel_browser' and o['browser'] >= len(browsers) - 1)]
+    elif draw(st.integers(0, 4)) == 0:
+        # quick restart: a service is withdrawn a few seconds after it came up and registered again within ten seconds of its first
+        # announcement; the browsers that watched must keep it alive through a later second look
+        k = draw(st.integers(0, n_svc - 1))
+        t_reg = next(o['t'] for o in ops if o['op'] == 'register' and o['svc'] == k)
+        ops = [o for o in ops if not (o.get('svc') == k and o['op'] != 'register')]
+        ops = [o for o in ops if not (o['op'] == 'close_host' and o['t'] < t_reg + 20000)]
+        t_un = t_reg + draw(st.integers(1600, 4000))
+        ops.append({'t': t_un, 'op': 'unregister', 'svc': k, 'what': 'port'})
+        ops.append({'t': t_un + draw(st.integers(1600, 4000)), 'op': 'reregister', 'svc': k, 'what': 'port'})
+        hb = draw(st.integers(0, n_hosts - 1))
+        joins[hb] = 'start'
+        browsers = [{'host': hb, 'types': [services[k]['type']], 'at': max(0, t_reg - draw(st.integers(0, 2000))), 'qtype': None}] + browsers[:3]
+        ops = [o for o in ops if o['op'] != 'cancel_browser']
+        restart = True
     elif draw(st.integers(0, 3)) == 0:
         # text (or port) flip-flop: changed and changed back 1.6-4 s later; a peer's cache then holds the first record again valid,
         # and the flushed one for up to 10 s more. A browser started on a long-present host inside that time looks the service up.
@@ -145,7 +161,7 @@ def scenario(draw) -> Dict[str, Any]:
             'services': services, 'browsers': browsers, 'ops': ops,
             # a third of the scenarios are looked at a second time 80 or 160 minutes after the settling point (past one or two
             # full pointer lifetimes): the refresh queries of the browsers have to keep every registered instance reported
-            'late_s': draw(st.sampled_from([0, 0, 0, 0, 4800, 9600])),
+            'late_s': draw(st.sampled_from([0, 0, 0, 0, 4800, 9600])) if not restart else draw(st.sampled_from([0, 4800, 4800, 9600])),
             # ... and in those, one more browser may be started long after everything has settled (past half of the pointer TTL, when
             # the host's cache entries are stale but valid), on any host: it has to report the registered instances like the others
             'late_browser': draw(st.sampled_from([None, {'host': draw(st.integers(0, n_hosts - 1)), 'types': draw(st.lists(st.integers(0, 2), min_size=1, max_size=3, unique=True).map(sorted)),
